@@ -161,7 +161,8 @@ fn check_state(c: &Checksum<'_>, model: &Model, at: &str) -> Result<Vec<(String,
             model.keys().collect::<Vec<_>>()
         ));
     }
-    let via_into_iter = guarded(|| c.into_iter().map(|(alg, value)| (alg.to_owned(), value.raw().to_owned())).collect::<Vec<_>>())
+    // (through `Deref` of the value here, through `raw()` in `observe`)
+    let via_into_iter = guarded(|| c.into_iter().map(|(alg, value)| (alg.to_owned(), (*value).to_owned())).collect::<Vec<_>>())
         .map_err(|p| violation!("C12.panic_in_iter", "{at}: into_iter() panicked: {p}"))?;
     if via_into_iter != entries {
         return Err(violation!(
